@@ -12,6 +12,9 @@ exclude_dynamic_elements / serialize_play / hash_play / verify_play / verify.
       play is used as key / value of smaller plays; those must get a different digest.
   O3  edits of excluded elements keep the digest; exclusion requests, missing list / signature / vars through
       verify_play with GPG stubbed; revocation through verify with the revocation file stubbed.
+      Look-alikes of the two labels (hostsx, vars_files, xvars, Hosts, host ...) are present in the play as real
+      elements: a request around one is an error (verify_play and exclude_dynamic_elements), the only legitimate
+      requests (/hosts/<it>, /vars/<it>) remove that child alone, and editing the top-level look-alike moves the digest.
 """
 import base64
 import binascii
@@ -37,12 +40,16 @@ RULE = ("all plays of the universe U (mappings over sharp key / scalar alphabets
         "thorough, built as dict / OrderedDict and, for a sub-universe, loaded from YAML text) grouped globally by the "
         "real digest; all substrings of the serialised text of 2- and 3-entry plays re-used as key or value; all "
         "exclusion paths of <= 3 labels in canonical and deviating syntax x play shapes x signature states; all "
-        "revocation lists x signature states; ordered pairs of equal-but-differently-typed scalars serialised one after "
+        "revocation lists x signature states; every prefix / suffix / infix / truncation / case variant of the two dynamic "
+        "labels (58 neighbour names) present in the play as a top-level element and as a child of hosts and of vars x 13 "
+        "request paths around it x 3 positions in the exclusion list x 3 values, each with its twin play in which only "
+        "the neighbour element is edited; ordered pairs of equal-but-differently-typed scalars serialised one after "
         "the other in one fresh interpreter; all edit sequences of <= 3 steps on one long-lived play object. "
         "An O1 play is non-trivial when another, structurally different play of U has the same serialised text after "
         "deleting quotes, backslashes and brackets (only quoting / typing / nesting marks separate the two); an O2 "
         "play when its text has exactly the length of the attacked text; an exclusion / verify case when the "
-        "reference model demands an error; a history when it has more than one step")
+        "reference model demands an error (for a neighbour case: the request names an existing element that is not "
+        "hosts / vars or a direct child of them); a history when it has more than one step")
 ASSUMPTIONS = ["GPG is out of scope: gnupg.GPG is replaced by a stub that declares a signature valid iff it equals "
                "'SIG:'+hex(digest); pkgutil.get_data is stubbed for revoked_playbooks.yaml only",
                "the YAML spelling of a scalar (quoting style, 0x1 vs 1) and the container class (dict vs CommentedMap) "
@@ -54,13 +61,18 @@ BOUNDS = {"quick": {"depth": 2, "list_len": 2, "mapping_len": 2, "top_level_entr
                     "o2_skeletons": "4 (2 entries) / 8 (3 entries)", "yaml_chunk": 12, "exclusion_strings": 38,
                     "exclusion_path_labels": 3, "revocation_lists": 14, "signature_kinds": 6, "zoo_scalars": 109,
                     "zoo_pair_scalars": 53, "tree_nodes": 5, "tree_children": 4, "entries_more": "3 and 4",
-                    "history_steps": 3, "equal_scalar_ordered_pairs": 18},
+                    "history_steps": 3, "equal_scalar_ordered_pairs": 18, "label_neighbours": 58,
+                    "neighbour_request_paths": 13, "neighbour_list_positions": 3,
+                    "neighbour_values": "3 as dict, 1 (mapping) loaded from block YAML",
+                    "neighbour_containers": "dict, yaml-block"},
           "thorough": {"depth": 3, "list_len": 2, "mapping_len": 2, "top_level_entries": 2, "scalars": 21, "keys": 16,
                        "quote_alphabet_string_len": 4, "quote_alphabet_pair_len": 2, "o1_buckets": 16, "o2_entries": 3,
                        "o2_skeletons": "4 (2 entries) / 8 (3 entries)", "yaml_chunk": 12, "exclusion_strings": 38,
                        "exclusion_path_labels": 3, "revocation_lists": 14, "signature_kinds": 6, "zoo_scalars": 109,
                        "zoo_pair_scalars": 109, "tree_nodes": 6, "tree_children": 4, "entries_more": "3 and 4",
-                       "history_steps": 3, "equal_scalar_ordered_pairs": 18}}
+                       "history_steps": 3, "equal_scalar_ordered_pairs": 18, "label_neighbours": 58,
+                       "neighbour_request_paths": 13, "neighbour_list_positions": 3, "neighbour_values": 3,
+                       "neighbour_containers": "dict, OrderedDict, yaml-flow, yaml-block"}}
 CAP_S = {"quick": 200, "thorough": 1800}
 
 STD = "/hosts,/vars/insights_signature"
@@ -652,6 +664,74 @@ def excl_gen_plays(full=True):
         yield wrap(sh["entries"], exc=e, hosts=sh["hosts"], sig=S(SIG0), pos="between")
 
 
+# ---- round 5: NEIGHBOURS of the two dynamic labels, present in the play ---------------------------------
+#
+# "Only 'hosts' and 'vars', or a direct child of them, can be excluded": the label comparison is exact.  A request whose
+# first component merely starts with / ends with / contains / is a case variant or a truncation of a label is "any other
+# exclusion request" -> verification error; and the element it names is signed content.  The requests only separate an
+# exact comparison from a sloppy one when the play really HAS an element of that name (otherwise both answer with an
+# error), so every play of this family carries the neighbour as a top-level key (and as a child of hosts and of vars,
+# where excluding it IS legitimate and must remove that child and nothing else).
+
+def near_labels():
+    out = []
+    for lab in m.LABELS:
+        out += [lab + "x", lab + "_files", lab + "_prompt", lab + "file", lab + "2", lab + "_", lab + "-", lab + ".",
+                lab + "$", lab + "s", lab + lab,                                     # the label is a proper PREFIX
+                "x" + lab, "_" + lab, "2" + lab, "." + lab, "^" + lab, "my_" + lab,   # ... a proper SUFFIX
+                "x" + lab + "x", "_" + lab + "_",                                    # ... an inner substring
+                lab[:-1], lab[1:], lab[:1], lab[:-1] + "x",                          # truncations / one letter off
+                lab.capitalize(), lab.upper(), lab[:-1] + lab[-1].upper(), lab[0] + lab[1:].upper()]   # case variants
+    out += ["_".join(m.LABELS), "".join(reversed(m.LABELS)), "|".join(m.LABELS), "(?:%s)" % "|".join(m.LABELS)]
+    # self-check (mc/LESSONS.md 10): no neighbour is a label, none is one after stripping blanks (the model is lenient
+    # about blanks), none contains the separators of the request syntax, all are distinct
+    assert len(set(out)) == len(out), out
+    for n in out:
+        assert n not in m.LABELS and n.strip() == n and "/" not in n and "," not in n and n not in ("x", "y"), n
+    return out
+
+
+NEAR_VALUES = [(M((S("x"), I(1)), (S("hosts"), I(2)), (S("vars"), I(3))), M((S("x"), I(2)), (S("hosts"), I(2)), (S("vars"), I(3)))),
+               (S("a"), S("b")),
+               (L(S("a")), L(S("b")))]              # (value as signed, value after the edit)
+NEAR_CONTEXTS = ["%s", STD + ",%s", "%s," + STD]
+
+
+def near_requests(n):
+    """Request paths around the neighbour n: itself, a child of it, a label as its child, deeper, and as a direct child
+    of each label (the only legitimate ones); with and without the leading slash, trailing / doubled slashes."""
+    return ["/" + n, n, "/" + n + "/", "//" + n,
+            "/" + n + "/x", n + "/x", "/" + n + "/x/", "/" + n + "//x",
+            "/" + n + "/hosts", "/" + n + "/vars", "/" + n + "/x/y",
+            "/hosts/" + n, "/vars/" + n]
+
+
+NEAR_SHARDS = {"dict": 1, "odict": 1, "yaml-flow": 4, "yaml-block": 4}
+
+
+def near_modes(tier):
+    return ["dict", "yaml-block"] if tier == "quick" else ["dict", "odict", "yaml-flow", "yaml-block"]
+
+
+def near_value_indices(tier, mode):
+    """quick: all three neighbour values as plain dicts, the mapping value only through the YAML loader."""
+    return list(range(len(NEAR_VALUES))) if tier != "quick" or mode == "dict" else [0]
+
+
+def near_cases(mode, vi):
+    signed, edited = NEAR_VALUES[vi]
+    for n in near_labels():
+        def play(v, req):
+            return wrap([(S("name"), S("n")), (S(n), v), (S("tasks"), L(M((S("k"), S("a")))))], exc=req,
+                        hosts=M((S("x"), I(1)), (S(n), I(2))), sig=S(SIG0),
+                        vafter=[(S("x"), M((S("y"), I(1)))), (S(n), I(1))], pos="between")
+        for q in near_requests(n):
+            for ctx in NEAR_CONTEXTS:
+                req = ctx % q
+                yield {"kind": "near", "neighbour": n, "play": {"enc": play(signed, req), "mode": mode},
+                       "twin": {"enc": play(edited, req), "mode": mode}}
+
+
 # ---- verify family -----------------------------------------------------------------------------
 
 def verify_plays():
@@ -1201,6 +1281,38 @@ def check_excl(case):
     return out, status, obs
 
 
+_LABEL_RULES = ("parent_not_dynamic_label", "deeper_than_direct_child")
+
+
+def check_near(case):
+    """A play that carries a NEIGHBOUR of a dynamic label (prefix / suffix / case variant / truncation) as a top-level
+    element, and a request built around that neighbour.
+      * everything check_excl demands (verify_play: error for a request that is not hosts / vars or a direct child;
+        otherwise the remainder is the reference remainder),
+      * the same verdict straight from exclude_dynamic_elements (second public door),
+      * the neighbour is not 'hosts' / 'vars', so it can never be excluded: whenever the play and its twin (same play,
+        only the top-level neighbour's value edited) both get a digest, the two digests differ."""
+    out, status, obs = check_excl(case)
+    out = list(out)
+    obj, pe = build(case["play"])
+    _, rule, _ = m.ref_exclusion(pe)
+    run = pipeline(obj)
+    if status == "error" and rule in _LABEL_RULES and run[:2] != ("exc", "PlaybookVerificationError"):
+        out.append(("exclusion:invalid-request-rejected", "PlaybookVerificationError (%s) from exclude_dynamic_elements" % rule,
+                    "accepted, digest %s" % run[1].hex() if run[0] == "ok" else "%s: %s" % run[1:3],
+                    {"rule": rule, "channel": "exclude_dynamic_elements"}))
+    if run[0] == "ok":
+        tobj, te = build(case["twin"])
+        if m.fp(te) == m.fp(pe):
+            raise RuntimeError("harness: the twin of a neighbour play is the play itself: %r" % (case,))
+        trun = pipeline(tobj)
+        if trun[0] == "ok" and trun[1] == run[1]:
+            out.append(("digest:edit-of-non-excludable-element-moves-digest", "a different digest after editing the "
+                        "top-level element %r (not hosts / vars: cannot be excluded)" % case.get("neighbour"),
+                        "both plays digest to %s" % run[1].hex(), {"rule": rule, "edited": "label_neighbour"}))
+    return out, status, obs
+
+
 def revocation_yaml(hashes, drop_key=False):
     """A revocation file shaped like insights/revoked_playbooks.yaml, signed for the stub."""
     p = pv()
@@ -1315,11 +1427,13 @@ def units(tier, seed):
     us += [{"part": "hist", "base": bi} for bi in range(len(H_BASES))]
     us += [{"part": "shared", "defs": d, "placement": pl, "mode": md}
            for d in DEF_PLACES for pl in PLACEMENTS for md in ("dict", "yaml-flow")]
+    us += [{"part": "near", "mode": md, "value": vi, "shard": sh, "of": NEAR_SHARDS[md]}
+           for md in near_modes(tier) for vi in near_value_indices(tier, md) for sh in range(NEAR_SHARDS[md])]
     return us
 
 
 def unit_weight(u):
-    return {"o1": 5, "o2": 3, "yaml": 2, "yaml-pairs": 2, "excl-gen": 3}.get(u["part"], 1)
+    return {"o1": 5, "o2": 3, "yaml": 2, "yaml-pairs": 2, "excl-gen": 3, "near": 2}.get(u["part"], 1)
 
 
 _STRIP = {ord(c): None for c in "'\"\\[]()"}
@@ -1616,6 +1730,17 @@ def run_unit(unit, tier):
             res.case(nontrivial=status in ("error", "reject"), outcome="excl:%s:%s" % (status, obs))
             _emit(res, vio, case)
         res.samples.append(case)
+    elif part == "near":
+        case = None
+        for ci, case in enumerate(near_cases(unit["mode"], unit["value"])):
+            if ci % unit["of"] != unit["shard"]:
+                continue
+            vio, status, obs = check_near(case)
+            res.case(nontrivial=status in ("error", "reject"), outcome="near:%s:%s" % (status, obs))
+            _emit(res, vio, case)
+            res.stat("near_cases")
+        res.maxi("near_neighbour_labels", len(near_labels()))
+        res.samples.append(case)
     elif part == "order":
         a, b = order_pairs()[unit["index"]]
         pa, pb = _scalar_plays(a), _scalar_plays(b)
@@ -1657,6 +1782,8 @@ def replay(case):
         vio = check_single(case["play"])
     elif kind == "excl":
         vio = check_excl(case)[0]
+    elif kind == "near":
+        vio = check_near(case)[0]
     elif kind == "verify":
         vio = check_verify(case)[0]
     elif kind == "order":
@@ -1676,6 +1803,8 @@ LEVEL_TEXT = ("Injectivity of the signed digest is decided on a finite universe 
               "delimiters and type shortcuts: every pair of plays inside the universe is covered by a global grouping "
               "(any change / insert / delete / reorder / re-nest / re-type edit that stays inside the universe), every "
               "substring of a serialised play is re-used as a key or value, every exclusion request of the alphabet is "
-              "run through verify_play, every revocation list shape through verify. No sampling.")
+              "run through verify_play, every request built around a look-alike of 'hosts' / 'vars' (prefix, suffix, case "
+              "variant, truncation) is run against a play that really has an element of that name, through verify_play and "
+              "through exclude_dynamic_elements, and editing that element must move the digest, every revocation list shape through verify. No sampling.")
 LEVEL_NOTE = ("Trusted: the 60-line reference model of the exclusion rule and the typed encoding used as structural "
               "equality; GPG and the shipped revocation file are stubbed; only the Python >= 3.12 serialiser path runs.")
